@@ -178,7 +178,9 @@ do_sign(const struct pline * l)
 	char * region = pooled ? mkstr(unres, 9, (uint64_t)(l->a[14] % 2), 0) : mkstr(unres, reglen, seed + 3, 0);
 	char * bucket = pooled ? mkstr(unres, 5, (uint64_t)(l->a[14] % 3), 0) : mkstr(unres, buclen, seed + 4, 0);
 	char * path = mkstr(unres, pathlen, seed + 5, '/'), * op = mkstr(unres, buclen, seed + 6, 0);
-	const char * method = (seed & 1) ? "GET" : "PUT";
+	/* the method goes into the canonical request verbatim, whatever its case */
+	static const char * const methods[] = { "GET", "PUT", "GET", "PUT", "POST", "DELETE", "HEAD", "get", "Patch", "method", "OPTIONS", "pUt" };
+	const char * method = methods[(seed >> 1) % 12];
 	int aim = (l->nargs > 14 && l->a[14] < 0) ? (int)(-l->a[14]) : 0;	/* aim a formatted string at a length around 1024 */
 	uint8_t * body = NULL;
 	char * sha = NULL, * date = NULL, * auth = NULL, * query = NULL;
